@@ -39,7 +39,7 @@ def catalog(kind):
     raise ValueError(kind)
 
 
-SHAPES = ['t_m', 'm_t', 't_t_m', 't_m_t', 'sub_m', 't_m_m', 't_m_m_aliased', 't_m_t_m', 'implicit', 'on_map', 'on_map_two', 'on_map_reversed', 'on_map_paren', 'on_map_func', 'on_map_not', 'on_map_or', 'on_map_between', 'on_map_gt', 'left_join', 't_m_version',
+SHAPES = ['t_m', 'm_t', 't_t_m', 't_m_t', 'sub_m', 't_m_m', 't_m_m_aliased', 't_m_t_m', 'implicit', 'on_map', 'on_map_two', 'on_map_reversed', 'on_map_paren', 'on_map_func', 'on_map_not', 'on_map_or', 'on_map_between', 'on_map_gt', 'on_subquery', 'on_map_and_subquery', 'left_join', 't_m_version',
           # a second table whose ON clause carries more than the key equality (allowed pushdown: top-level conjuncts of an inner / left join's ON)
           't_t_m_on_and', 't_t_m_on_or', 't_t_m_on_not', 't_t_m_on_constfirst', 't_t_m_left_on_and', 't_t_m_right_on_and', 't_t_m_on_paren_or',
           # a table joined after the model: no ON, non-equality ON, ON against a model column
@@ -68,6 +68,8 @@ ON_MAPS = {
     'on_map_or': ('{m}.p1 = {t}.a OR {m}.p2 = {t}.x', None),
     'on_map_between': ('{m}.p1 BETWEEN {t}.a AND {t}.x', None),
     'on_map_gt': ('{m}.p1 > {t}.a', None),
+    'on_subquery': ('{t}.a IN (SELECT b FROM int2.t2)', None),
+    'on_map_and_subquery': ('{m}.p1 = {t}.a AND {t}.x IN (SELECT y FROM int2.t2)', None),
 }
 WHERES = [
     # label, sql with {t} {m} placeholders, list of conjunct descriptors: (owner, context, kind, col, value)
@@ -99,6 +101,14 @@ WHERES = [
     ('t2_const_first', '1 < t2.b', [('t2', 'top', 'gt', 'b', 1)]),
     ('m_p_eq', '{m}.p = 5', [('m', 'top', 'eq', 'p', 5)]),
     ('m_p_and_p1', "{m}.p = 5 AND {m}.p1 = 'v'", [('m', 'top', 'eq', 'p', 5), ('m', 'top', 'eq', 'p1', 'v')]),
+    # a model column named like a table column, fixed to the same constant as that table column (look-alike conjuncts)
+    ('m_a_and_t_a', '{m}.a = 1 AND {t}.a = 1', [('m', 'top', 'eq', 'a', 1), ('t', 'top', 'eq', 'a', 1)]),
+    ('t_a_and_m_a', '{t}.a = 1 AND {m}.a = 1', [('t', 'top', 'eq', 'a', 1), ('m', 'top', 'eq', 'a', 1)]),
+    ('m_a_and_t_x_same_const', '{m}.p1 = 1 AND {t}.x = 1 AND {t}.a = 1', [('m', 'top', 'eq', 'p1', 1), ('t', 'top', 'eq', 'x', 1), ('t', 'top', 'eq', 'a', 1)]),
+    # a table condition one of whose bounds / operands is a model column: it concerns two sources and may not go to the table's fetch
+    ('between_t_model_bound', '{t}.a BETWEEN 1 AND {m}.p1', [('t', 'top', 'two-sources', 'a', None)]),
+    ('t_eq_model_col', '{t}.a = {m}.p1', [('t', 'top', 'two-sources', 'a', None)]),
+    ('t_in_with_model_col', '{t}.a IN (1, {m}.p1)', [('t', 'top', 'two-sources', 'a', None)]),
 ]
 ALIASES = [('none', None, None), ('as', 'ta', 'ma'), ('upper', 'TA', 'MA')]
 USINGS = [('none', '', None, None), ('one', 'USING x = 1', {'x': 1}, None), ('mixed_case', "USING X = 1, Yy = 'a'", {'x': 1, 'yy': 'a'}, None),
